@@ -31,6 +31,19 @@ class ProudCloud(Backend, short_name='PROUDCLOUD'):
 
 Client = ProudCloud
 '''
+# a custom backend derived from another custom backend: its environment variables carry ITS OWN class name
+# (README: <SHORT_NAME>_<OPTION>, the short name being the class name unless the class declares one itself)
+PCL_SOURCE = '''from .pc import ProudCloud
+
+
+class ProudCloudLegacy(ProudCloud):
+    def __init__(self, connection_string, *, account_id, secret, port=8_765, region='eu-1'):
+        raise RuntimeError('the harness records constructor calls instead')
+
+
+Client = ProudCloudLegacy
+'''
+PCL_PARAMS = [('account_id', None), ('secret', None), ('port', 8765), ('region', 'eu-1')]
 PC_PARAMS = [('account_id', None), ('secret', None), ('port', 9876), ('legacy', False), ('mode', 'fast')]
 
 COMMANDS = [('init', []), ('add-key', []), ('list-snapshots', []), ('ls', []), ('list-files', []), ('lf', []),
@@ -64,6 +77,8 @@ DOC_EXCL_CLI = [('no-cache', 'cache-directory'), ('password', 'password-file')]
 DOC_BACKENDS = {
     'local': {'short': 'Local', 'params': []},
     's3c': {'short': 'S3C', 'params': [('key_id', None), ('access_key', None), ('region', None), ('host', None), ('scheme', 'https')]},
+    # README, Backends: S3_KEY_ID, S3_ACCESS_KEY, S3_REGION - the class's own name, although S3 derives from the S3C client
+    's3': {'short': 'S3', 'params': [('key_id', None), ('access_key', None), ('region', None)]},
 }
 
 
@@ -199,10 +214,13 @@ class World:
         d = self.root / 'pcx' / 'replicat' / 'backends'
         d.mkdir(parents=True)
         (d / 'pc.py').write_text(PC_SOURCE)
+        (d / 'pcl.py').write_text(PCL_SOURCE)
         self.general, self.excl_file, self.excl_cli = DOC_GENERAL, DOC_EXCL_FILE, DOC_EXCL_CLI
         self.backends = {
             'pc': {'short': 'PROUDCLOUD', 'params': PC_PARAMS},
+            'pcl': {'short': 'PROUDCLOUDLEGACY', 'params': PCL_PARAMS},
             's3c': DOC_BACKENDS['s3c'],
+            's3': DOC_BACKENDS['s3'],
             'local': DOC_BACKENDS['local'],
         }
         self.files = {}
@@ -217,9 +235,12 @@ class World:
         b = self.backends[backend]
         return self.general + backend_rows(b['short'], b['params'])
 
-    def make_case(self, backend, command, given, selector='cli', profile_mode=0, kind='precedence', label=None):
-        """given: list of (row, src, raw).  selector: how the backend is chosen when 'repository' is not under test."""
+    def make_case(self, backend, command, given, selector='cli', profile_mode=0, kind='precedence', label=None, extra=()):
+        """given: list of (row, src, raw) for the option under test.  extra: other options set alongside (not judged by
+        the oracles, but part of the run and of the model's input).  selector: how the backend is chosen when
+        'repository' is not under test.  profile_mode: 0 no file unless needed, 1 file without --profile, 2 --profile prof."""
         case = {'kind': kind, 'backend': backend, 'command': command, 'given': [(r['name'], s, v) for r, s, v in given],
+                'extra': [(r['name'], s, v) for r, s, v in extra],
                 'selector': selector, 'profile_mode': profile_mode, 'label': label}
         return case
 
@@ -229,7 +250,7 @@ class World:
         rows = {r['name']: r for r in self.rows(backend)}
         cmd, positional = next(c for c in COMMANDS if c[0] == case['command'])
         cli, env, prof, dflt = [], {}, {}, {}
-        for name, src, v in case['given']:
+        for name, src, v in case['given'] + case.get('extra', []):
             r = rows[name]
             if src == 'cli':
                 flag = r['flags'][self.n % len(r['flags'])] if r['flags'] else None
@@ -240,7 +261,7 @@ class World:
                 prof[name] = v
             else:
                 dflt[name] = v
-        tested = {n for n, _, _ in case['given']}
+        tested = {n for n, _, _ in case['given'] + case.get('extra', [])}
         if 'repository' not in tested and backend != 'local':
             sel = f'{backend}:base-conn'
             if case['selector'] == 'cli':
@@ -291,6 +312,41 @@ def subsets(avail):
         yield from itertools.combinations(avail, k)
 
 
+def other_option(world, backend, row, src):
+    """Another option (different destination) with a valid value, to populate a section next to the option under test."""
+    rows = {r['name']: r for r in world.rows(backend)}
+    if row['dest'] != 'log_level':
+        return (rows['log-level'], src, 'error')
+    return (rows['concurrent'], src, 3)
+
+
+def invariance_cases(world, backends):
+    """An option set ONLY in the default section, with a value that differs from the built-in: it must take effect, and the
+    same way whether no profile is selected, a profile that does not mention it, or a profile that sets other options."""
+    values = {'repository': '{b}:conn-inv', 'concurrent': 14, 'hide-progress': True, 'cache-directory': '/cache/inv', 'no-cache': True,
+              'password': 'secret-inv', 'key': 'inline-key-inv', 'log-level': 'debug'}
+    cases = []
+    for backend in backends:
+        for row in world.rows(backend):
+            if not row['backend_option'] and backend != 'pc' and row['name'] != 'repository':
+                continue
+            if row['file'] == 'CoReadFile':
+                v = world.files[(row['name'], 'dflt')]
+            elif row['backend_option']:
+                v = f'word-inv-{row["dest"]}'
+            else:
+                v = values[row['name']]
+                v = v.format(b=backend) if isinstance(v, str) else v
+            for variant in range(3):
+                extra = [other_option(world, backend, row, 'prof')] if variant == 2 else []
+                cases.append(world.make_case(backend, COMMANDS[(len(cases)) % len(COMMANDS)][0], [(row, 'dflt', v)], selector='cli',
+                                             profile_mode=[1, 2, 2][variant], kind='invariance', extra=extra,
+                                             label=f'{backend}/{row["name"]}'))
+            cases.append(world.make_case('local' if row['name'] == 'repository' else backend, 'clean', [], selector='cli', profile_mode=0,
+                                         kind='invariance-base', label=f'{backend}/{row["name"]}'))
+    return cases
+
+
 def precedence_cases(world, ctx, backends, all_commands):
     """every option x every subset of its sources (x every command in the thorough tier)."""
     cases, ci = [], 0
@@ -306,7 +362,14 @@ def precedence_cases(world, ctx, backends, all_commands):
                     given = [(row, s, raw_value(row, s, backend, world.files, variant)) for s in sub]
                     case_backend = 'local' if row['name'] == 'repository' and not sub else backend   # built-in repository
                     sel = ['cli', 'cli', 'env', 'dflt'][ci % 4] if 'dflt' not in sub and 'prof' not in sub else ['cli', 'env'][ci % 2]
-                    cases.append(world.make_case(case_backend, cmd, given, selector=sel, profile_mode=ci % 3))
+                    mode, extra = ci % 3, []
+                    if 'dflt' in sub and 'prof' not in sub:
+                        # the default section is a source: mostly WITH a selected profile - an existing section that does
+                        # not mention the option, or one that sets other options
+                        mode = [2, 2, 1, 2, 0][ci % 5]
+                        if ci % 5 in (1, 3):
+                            extra = [other_option(world, backend, row, 'prof')]
+                    cases.append(world.make_case(case_backend, cmd, given, selector=sel, profile_mode=mode, extra=extra))
                     ci += 1
     return cases
 
@@ -323,7 +386,7 @@ def agreement_cases(world, ctx, backends):
                 continue
             if not row['backend_option'] and backend != 'pc':
                 continue
-            for s in strings[row['cli']]:
+            for s in (strings[row['cli']] if backend == 'pc' else strings[row['cli']][:3]):
                 s = s.format(b=backend)
                 if row['cli'] == 'CoRepo' and not s.startswith(backend) and backend != 'local':
                     b2 = 'local'
@@ -404,7 +467,7 @@ Definition go (params : list (string * option value)) (s : sources) := run_main 
 
 def coq_sources(world, case):
     cli, env, prof, dflt = [], [], [], []
-    for name, src, v in case['given']:
+    for name, src, v in case['given'] + case.get('extra', []):
         if src == 'cli':
             cli.append(f'({core.coq_string(name)}, {core.coq_string(v)})')
         elif src == 'env':
@@ -413,7 +476,7 @@ def coq_sources(world, case):
             prof.append(f'({core.coq_string(name)}, {coq_value(v)})')
         else:
             dflt.append(f'({core.coq_string(name)}, {coq_value(v)})')
-    tested = {n for n, _, _ in case['given']}
+    tested = {n for n, _, _ in case['given'] + case.get('extra', [])}
     if 'repository' not in tested and case['backend'] != 'local':
         sel = core.coq_string(f'{case["backend"]}:base-conn')
         if case['selector'] == 'cli':
@@ -484,7 +547,7 @@ def model_eff(t, obs, files_content):
 
 # --------------------------------------------------------------------------- checks
 def label(case):
-    return {k: case[k] for k in ('kind', 'backend', 'command', 'given', 'selector', 'profile_mode', 'argv', 'env') if k in case}
+    return {k: case[k] for k in ('kind', 'backend', 'command', 'given', 'extra', 'selector', 'profile_mode', 'argv', 'env') if k in case}
 
 
 def observed_value(world, case, obs, dest):
@@ -513,7 +576,12 @@ def check(world, cases, rep: Report, with_model=True):
         if case['kind'] == 'precedence' and len(case['given']) == 1 and obs['status'] == 'ok':
             name, src, v = case['given'][0]
             dest = rows_by_backend[case['backend']][name]['dest']
-            single[(case['backend'], name, src, json.dumps(v))] = obs['args'].get(dest)
+            k = (case['backend'], name, src, json.dumps(v))
+            if k in single and single[k] != obs['args'].get(dest):
+                rep.violations.append({'what': f'option {name} set only in {src} to {v!r}: effective value {obs["args"].get(dest)} in one run, {single[k]} in another '
+                                               '(other command / profile selection / way of naming the backend)',
+                                       'signature': {'kind': 'precedence', 'option': name, 'backend': case['backend']}, 'replay': label(case)})
+            single[k] = obs['args'].get(dest)
     for case, obs in zip(cases, results):
         if case['kind'] != 'precedence' or len(case['given']) < 2:
             continue
@@ -552,6 +620,23 @@ def check(world, cases, rep: Report, with_model=True):
         if case['kind'] == 'invalid' and obs['status'] == 'ok':
             rep.violations.append({'what': f'invalid value accepted: {case["given"]}', 'signature': {'kind': 'invalid_accepted'}, 'replay': label(case)})
 
+    # (5) an option of the default section takes effect, however (and whether) a profile is selected
+    inv, base = {}, {}
+    for case, obs in zip(cases, results):
+        if case['kind'] in ('invariance', 'invariance-base'):
+            name = case['label'].split('/', 1)[1]
+            dest = rows_by_backend[case['backend']][name]['dest']
+            val = obs['args'].get(dest) if obs['status'] == 'ok' else ['stopped', obs.get('error') or obs.get('code')]
+            (inv if case['kind'] == 'invariance' else base).setdefault(case['label'], []).append((val, case))
+    for lab, items in inv.items():
+        vals = {json.dumps(v) for v, _ in items}
+        b = base.get(lab, [(None, None)])[0][0]
+        how = ['no profile selected', 'a profile that does not mention it', 'a profile that sets other options']
+        if len(vals) > 1 or json.dumps(b) in vals:
+            rep.violations.append({'what': f'option {lab.split("/", 1)[1]} set only in the default section (backend {lab.split("/")[0]}): effective value ' +
+                                           ', '.join(f'{v} with {h}' for (v, _), h in zip(items, how)) + f'; built-in {b}',
+                                   'signature': {'kind': 'default_section_lost', 'option': lab.split('/', 1)[1], 'backend': lab.split('/')[0]},
+                                   'replay': [label(c) for _, c in items]})
     # (4) the backend that was loaded and constructed is the one the effective repository names
     for case, obs in zip(cases, results):
         if obs['status'] == 'ok':
@@ -612,8 +697,10 @@ def run(ctx) -> Report:
     world = World(ctx)
     compare_tables(rep)
     thorough = ctx.tier == 'thorough'
-    cases = precedence_cases(world, ctx, ['pc', 's3c', 'local'], all_commands=thorough)
-    cases += agreement_cases(world, ctx, ['pc', 's3c'])
+    backends = ['pc', 's3c', 's3', 'pcl', 'local']
+    cases = precedence_cases(world, ctx, backends, all_commands=thorough)
+    cases += agreement_cases(world, ctx, ['pc', 's3c', 's3', 'pcl'])
+    cases += invariance_cases(world, backends)
     cases += exclusive_cases(world) + invalid_cases(world) + double_coercion_cases(world)
     check(world, cases, rep)
     rep.extra['processes'] = len(cases)
@@ -624,8 +711,9 @@ def search(ctx, broken) -> Report:
     """Model-free oracles over the full product (all commands), and the disagreeing cases again."""
     rep = Report(rule=RULE)
     world = World(ctx)
-    cases = precedence_cases(world, ctx, ['pc', 's3c', 'local'], all_commands=True)
-    cases += agreement_cases(world, ctx, ['pc', 's3c']) + exclusive_cases(world) + invalid_cases(world)
+    backends = ['pc', 's3c', 's3', 'pcl', 'local']
+    cases = precedence_cases(world, ctx, backends, all_commands=True)
+    cases += agreement_cases(world, ctx, ['pc', 's3c', 's3', 'pcl']) + invariance_cases(world, backends) + exclusive_cases(world) + invalid_cases(world)
     check(world, cases, rep, with_model=False)
     return rep
 
@@ -647,8 +735,9 @@ def replay(ctx, obj):
             if row[{'cli': 'cli', 'env': 'env', 'prof': 'file', 'dflt': 'file'}[s]] == 'CoReadFile':
                 v = world.files[(n, s)]          # the files of the original run are gone
             given.append((row, s, v))
+        extra = [(rows_by_backend[it['backend']][n], s, v) for n, s, v in it.get('extra', [])]
         cases.append(world.make_case(it['backend'], it['command'], given, selector=it.get('selector', 'cli'),
-                                     profile_mode=it.get('profile_mode', 0), kind=it.get('kind', 'precedence'), label='replay'))
+                                     profile_mode=it.get('profile_mode', 0), kind=it.get('kind', 'precedence'), label='replay', extra=extra))
     results = check(world, cases, rep)
     for c, o in zip(cases, results):
         print('argv:', c['argv'], 'env:', c['env'], '->', o['status'], {n: o.get('args', {}).get(rows_by_backend[c['backend']][n]['dest']) for n, _, _ in c['given']})
